@@ -1,5 +1,5 @@
 (* C10 — --check changes nothing. *)
-From AD Require Import Bytes Outcome Fs Helper HelperProofs Rewrite Cleanup CheckPredicts.
+From AD Require Import Bytes Outcome Fs Helper HelperProofs Rewrite Cleanup CheckPredicts Config Walk CheckWalk.
 
 (* In check mode, for every handler result (including errors and panics), every handler shape, both
    profiles and any single failing operation: the file system after the run IS the file system before,
@@ -27,6 +27,14 @@ Theorem C10_predicts_real : forall e prof eager handler p f0 ip meta,
   snd (run_handler e None Check prof eager handler p (init_sim f0)) = snd (run_handler e None Real prof eager handler p (init_sim f0)).
 Proof. exact check_predicts_real. Qed.
 
+(* a whole walk in check mode: whatever the entries, handlers, results and failures, the tree at the end and at
+   every moment in between IS the tree at the start, and only non-mutating operations were issued *)
+Theorem C10_walk_unchanged : forall e fault prof hs f0 entries w',
+  walk e fault Check prof hs (init_wstate f0) entries = Some w' ->
+  s_fs (w_sim w') = f0 /\ Forall (eq f0) (s_hist (w_sim w')) /\ Forall (fun x => readonly_op (fst x) = true) (s_trace (w_sim w')).
+Proof. exact walk_check_unchanged. Qed.
+
 Print Assumptions C10_readonly.
 Print Assumptions C10_readonly_from_start.
 Print Assumptions C10_predicts_real.
+Print Assumptions C10_walk_unchanged.
